@@ -85,6 +85,11 @@ let f _id vs =
         let obs = List.map (fun x -> match as_list x with
           | [h; j; ct] -> (as_bool h, as_int j, dec_content ct) | _ -> failwith "obs") (as_list obs) in
         let jis = List.map (fun (_, j, _) -> n_of_int j) obs in
+        let jmax ttl = ttl / 100 * (min jit 100) + (ttl mod 100) * (min jit 100) / 100 in
+        List.iteri (fun j (_, x, _) -> if x < 0 || x > jmax ittl then
+          diff i "iterator entry %d stored with TTL %d, outside [%d, %d]" j (ittl + x) ittl (ittl + jmax ittl)) obs;
+        if as_int jq < 0 || as_int jq > jmax qttl then
+          diff i "query entry stored with TTL %d, outside [%d, %d]" (qttl + as_int jq) qttl (qttl + jmax qttl);
         let st = tick_to c !s (as_int tb) and st0 = tick_to c !s0 (as_int tb) in
         let m_tzero = int_of_n (fst (determine c st)) = 0 in
         let (st', out) = step c st (Request (keys, true, n_of_int (as_int jq), jis)) in
@@ -151,7 +156,7 @@ let f _id vs =
         (match out with
          | ORead b -> if b <> as_bool did then diff i "run read model=%s impl=%s" (b2 b) (b2 (as_bool did))
          | _ -> diff i "model output kind")
-      | I "5" :: tb :: _ :: did :: clset :: cln :: storeset :: marks :: readlen :: [] ->
+      | I "5" :: tb :: _ :: did :: clset :: cln :: storeset :: marks :: readlen :: clttl :: storettl :: markttl :: [] ->
         let st = tick_to c !s (as_int tb) in
         let m_readlen = match st.s_run with Some (RRead r) -> nat_len r.r_seen | _ -> -1 in
         let (st', out) = step c st InvFinish in
@@ -180,6 +185,17 @@ let f _id vs =
                  | None -> -1 in
                if m_cln <> as_int cln then diff i "changelog entry LastModified covers model=%d impl=%d changes" m_cln (as_int cln)
              end;
+             (* the TTLs the run passed to Set *)
+             let ttl_of m = match aget mkey_eqb m st'.s_mk with
+               | Some e -> int_of_n e.me_exp - int_of_n e.me_lm | None -> -2 in
+             if clset && m_cl then begin
+               let m_ttl = match st'.s_cl with Some e -> int_of_n e.cl_exp - int_of_n e.cl_checked | None -> -2 in
+               if m_ttl <> as_int clttl then diff i "changelog entry TTL model=%d impl=%d" m_ttl (as_int clttl)
+             end;
+             if storeset && m_store && ttl_of MStore <> as_int storettl then
+               diff i "store-wide marker TTL model=%d impl=%d" (ttl_of MStore) (as_int storettl);
+             List.iter (fun m -> if ttl_of m <> as_int markttl then
+               diff i "entity marker %s TTL model=%d impl=%d" (show_marker m) (ttl_of m) (as_int markttl)) m_marks;
              if m_readlen <> as_int readlen then diff i "changelog length at the run's read model=%d impl=%d" m_readlen (as_int readlen);
              if as_int readlen > !cov then cov := as_int readlen
            end
